@@ -224,6 +224,7 @@ def check(ctx, tier):
     obs += writer_obligations(ctx, "D-c")
     o_glob, n_glob = global_obligations(ctx, "D-d")
     obs += o_glob
+    obs += ctx.attempt(lambda c, cl: pure.fresh_receivers(c, cl)[0], ctx, "D-e", default=[])
     exceptions.apply(obs)
     floors = [Floor("mutation sites checked against API arguments", n_api, 60), Floor("serializer functions", n_ser, 50),
               Floor("memoised stage launches", n_memo, 4)]
